@@ -1,95 +1,125 @@
-(* ArenaClients.v - arena-backed buffers and vectors as clients of the arena (C19, S5, thin).
+(* ArenaClients.v - arena-backed buffers and vectors as clients of the arena (C19).
 
-   libks/arena-buffer.c and libks/arena-vector.c hand the arena to buffer.c / vector.c
-   as three callbacks; the only calls that reach the arena after creation are
-     buffer_reserve   -> arena_realloc(s, bf_ptr, bf_siz, newsiz)              (buffer.c)
-     vector_reserve1  -> arena_realloc(s, vc, sizeof(struct vector) + len * stride,
-                                            sizeof(struct vector) + newsiz * stride)     (vector.c)
-   with newsiz obtained by doubling.  [buf_reserve] / [vec_reserve] compute that call as
-   an [op] from the container's fields (None = EOVERFLOW, Some None = enough room, no
-   call).  What is proved:
+   The calls are [buf_reserve] / [vec_reserve] of ArenaClientDefs.v, defined from the items
+   harness/t_arena.py regenerates from buffer.c / vector.c (old-size and new-size expressions,
+   initial capacity, factor and guard of the doubling loop, sizeof(struct vector)) and compared
+   by the harness with every realloc the real containers issue.  What is proved:
    * the call always GROWS (old < new) - so it is subject to arena_scope_validate;
-   * a buffer whose storage is a live user block named with its true size issues a call
-     inside [api_okb] ([buf_reserve_api]); through a scope that is not the innermost one
-     the call traps ([buf_outer_growth_traps]); through the innermost one it returns (or
-     exits for > 2^63 bytes) and the buffer again owns a live block of its new size
+   * a buffer whose storage is a live user block of exactly bf_siz bytes issues a call inside
+     [api_okb] ([buf_reserve_api]); through a scope that is not the innermost one the call
+     traps ([buf_outer_growth_traps]); through the innermost one it returns (or exits for
+     > 2^63 bytes) and the buffer again owns a live block of exactly its new size
      ([buf_inner_growth]);
-   * the same for a FULL vector (len = capacity, the situation of vector_alloc, and of
-     arena_vector_init's own reserve) ([vec_reserve_api], [vec_outer_growth_traps]);
-   * a vector that is NOT full (vector_reserve(n) with room left but not enough) names
-     sizeof(struct vector) + len * stride, which is less than the size the block was allocated
-     with: outside [api_okb] ([vec_reserve_underreports], a witness).  The arena then
-     copies only the live elements; that this is harmless is observed by the
-     correspondence harness, not proved.
-   Creation (arena_malloc / arena_calloc of the header) is a plain Malloc / Calloc op.
-   That buffer.c / vector.c keep bf_siz, vc_siz in step with what they were granted is
-   their own invariant (C20 for the vector); here it is the hypothesis [buf_ok] / [vec_ok]. *)
+   * the same for EVERY vector whose header + capacity is a live user block, full or not
+     ([vec_reserve_api], [vec_outer_growth_traps], [vec_inner_growth]): vector.c names
+     sizeof(struct vector) + len * stride, the USED part of the block, which [is_user_at]
+     admits (a positive part of a live block); the arena copies exactly that part
+     ([vec_growth_keeps_elements]);
+   * the invariants [buf_ok] / [vec_ok] hold at creation ([buf_init_ok], [vec_init_ok]: the
+     header block vector_init_impl obtains by calloc(1, sizeof(struct vector))) and are
+     re-established by every growth, so they hold for the whole life of the container as long
+     as buffer.c / vector.c store what they were granted (bf_siz = newsiz, vc_siz = newsiz:
+     pinned as text by t_arena.py, and C20's subject). *)
 From Robsd Require Import Base.Bytes Arena.ArenaDefs Arena.ArenaSpec Arena.ArenaProofs Arena.ArenaInv Arena.ArenaThms.
+From Robsd Require Export Arena.ArenaClientDefs.
+From RobsdGen Require Import Gen_Arena.
 Local Open Scope N_scope.
 
-Definition ULONG_MAX : N := SIZE_LIMIT - 1.
-
-(* newsiz = siz ? siz : 16; while (newsiz < newlen) { if (newsiz > ULONG_MAX / 2) overflow; newsiz *= 2; } *)
-Fixpoint dbl (fuel : nat) (s target : N) : option N :=
-  if s <? target then
-    match fuel with
-    | O => None
-    | S f => if ULONG_MAX / 2 <? s then None else dbl f (2 * s) target
-    end
-  else Some s.
-
-Lemma dbl_ge fuel : forall s target r, dbl fuel s target = Some r -> target <= r /\ s <= r.
+Lemma dbl_ge guard factor fuel : 1 <= factor ->
+  forall s target r, dbl guard factor fuel s target = Some r -> target <= r /\ s <= r.
 Proof.
-  induction fuel as [|f IH]; intros s target r; cbn [dbl].
+  intros Hf. induction fuel as [|f IH]; intros s target r; cbn [dbl].
   - destruct (N.ltb_spec s target) as [Hlt|Hge]; [discriminate|]. intros E; inversion E; subst. lia.
   - destruct (N.ltb_spec s target) as [Hlt|Hge]; [|intros E; inversion E; subst; lia].
-    destruct (ULONG_MAX / 2 <? s); [discriminate|]. intros E. apply IH in E. lia.
+    destruct (ULONG_MAX / guard <? s); [discriminate|]. intros E. apply IH in E. nia.
 Qed.
 
+Lemma buf_factor_ok : 1 <= ar_buf_dbl_factor.
+Proof. vm_compute. discriminate. Qed.
+Lemma vec_factor_ok : 1 <= ar_vec_dbl_factor.
+Proof. vm_compute. discriminate. Qed.
+
+(* the client owns a live user block at p of exactly [size] bytes *)
+Definition owns (g : ghost) (p : loc) (size : N) : Prop :=
+  exists b, In b (g_blocks g) /\ b_node b = false /\ b_loc b = p /\ b_size b = size.
+
+Lemma loc_eqb_same p : loc_eqb p p = true.
+Proof. unfold loc_eqb. now rewrite Nat.eqb_refl, N.eqb_refl. Qed.
+
+(* naming such a block with its size, or with a positive part of it, is within the API *)
+Lemma owns_find g p size old :
+  owns g p size -> old <= size -> size = old \/ 0 < old ->
+  exists b', find (is_user_at p old) (g_blocks g) = Some b'.
+Proof.
+  intros (b & Hb & Hn & Hl & Hs) Hle Hpos.
+  assert (Hu : is_user_at p old b = true).
+  { unfold is_user_at. rewrite Hn, Hl, loc_eqb_same, Hs. simpl.
+    destruct Hpos as [->|Hpos]; [rewrite N.eqb_refl; reflexivity|].
+    destruct (N.eqb_spec size old) as [|Hne]; [reflexivity|]. simpl.
+    apply andb_true_iff. split; apply N.ltb_lt; lia. }
+  destruct (find (is_user_at p old) (g_blocks g)) as [b'|] eqn:Ef; [eauto|].
+  rewrite (find_none _ _ Ef _ Hb) in Hu. discriminate.
+Qed.
+
+Lemma owns_head g q size lvl rest :
+  owns (mkG (mkB q size lvl false :: rest) (g_scopes g) (g_freed g)) q size.
+Proof. eexists. split; [left; reflexivity|]. simpl. auto. Qed.
+
 (* ---- struct buffer ------------------------------------------------------------------------------ *)
-Record buf := mkBuf { bf_ptr : option loc; bf_siz : N; bf_len : N }.
-
-(* buffer_reserve(bf, len) through the scope with index k *)
-Definition buf_reserve (k : nat) (bf : buf) (len : N) : option (option op) :=
-  if ULONG_MAX - bf_len bf <? len then None else
-  let newlen := bf_len bf + len in
-  if (0 <? bf_siz bf) && (newlen <=? bf_siz bf) then Some None else
-  match dbl 64 (if bf_siz bf =? 0 then 16 else bf_siz bf) newlen with
-  | None => None
-  | Some newsiz => Some (Some (Realloc k (bf_ptr bf) (bf_siz bf) newsiz))
-  end.
-
 (* the buffer's storage is a live user block of exactly bf_siz bytes (or there is none yet) *)
 Definition buf_ok (g : ghost) (bf : buf) : Prop :=
   match bf_ptr bf with
   | None => bf_siz bf = 0
-  | Some p => exists b, In b (g_blocks g) /\ is_user_at p (bf_siz bf) b = true
+  | Some p => owns g p (bf_siz bf)
   end.
 
-Lemma find_user_some p size blocks b :
-  In b blocks -> is_user_at p size b = true -> exists b', find (is_user_at p size) blocks = Some b'.
-Proof.
-  intros Hb Hu. destruct (find (is_user_at p size) blocks) as [b'|] eqn:Ef; [eauto|].
-  rewrite (find_none _ _ Ef _ Hb) in Hu. discriminate.
-Qed.
+(* buffer_alloc_impl: memset(bf, 0, sizeof( *bf)) *)
+Lemma buf_init_ok g : buf_ok g (mkBuf None 0 0).
+Proof. reflexivity. Qed.
 
-(* the call buffer_reserve issues: which one it is, and that it grows *)
+(* the call buffer_reserve issues: which one it is, and that it grows.  The first conjunct is
+   where the generated old-size / new-size expressions are consumed: it says they are
+   (bf_siz, newsiz); a source that names something else breaks this proof. *)
 Lemma buf_reserve_call k bf len o :
   buf_reserve k bf len = Some (Some o) ->
   exists newsiz, o = Realloc k (bf_ptr bf) (bf_siz bf) newsiz /\ bf_siz bf < newsiz /\ bf_len bf + len <= newsiz.
 Proof.
-  unfold buf_reserve. destruct (ULONG_MAX - bf_len bf <? len); [discriminate|].
+  unfold buf_reserve, buf_newsiz. destruct (ULONG_MAX - bf_len bf <? len); [discriminate|].
   destruct ((0 <? bf_siz bf) && (bf_len bf + len <=? bf_siz bf)) eqn:Eroom; [discriminate|].
-  destruct (dbl 64 (if bf_siz bf =? 0 then 16 else bf_siz bf) (bf_len bf + len)) as [newsiz|] eqn:Ed; [|discriminate].
+  destruct (dbl ar_buf_dbl_guard ar_buf_dbl_factor 64 (if bf_siz bf =? 0 then ar_buf_init_cap else bf_siz bf)
+                (bf_len bf + len)) as [newsiz|] eqn:Ed; [|discriminate].
   intros H; inversion H; subst; clear H. exists newsiz. split; [reflexivity|].
-  apply dbl_ge in Ed. destruct Ed as [E1 E2]. split; [|assumption].
-  destruct (N.eqb_spec (bf_siz bf) 0) as [Hz|Hnz]; [lia|].
-  apply andb_false_iff in Eroom. destruct Eroom as [H|H]; [apply N.ltb_ge in H; lia|apply N.leb_gt in H; lia].
+  apply (dbl_ge _ _ _ buf_factor_ok) in Ed. destruct Ed as [E1 E2]. split; [|assumption].
+  destruct (N.eqb_spec (bf_siz bf) 0) as [Hz|Hnz].
+  - rewrite Hz. assert (0 < ar_buf_init_cap) by (vm_compute; reflexivity). lia.
+  - apply andb_false_iff in Eroom. destruct Eroom as [H|H]; [apply N.ltb_ge in H; lia|apply N.leb_gt in H; lia].
 Qed.
 
 Section Clients.
 Variable c : cfg.
 Hypothesis Hwf : wf_cfg c.
+
+(* a realloc inside the API that returns, returns a block *)
+Lemma realloc_returns_block st g k p0 old new st' ev :
+  reach c st g -> api_okb g (Realloc k p0 old new) = true ->
+  step c st (Realloc k p0 old new) = Ok (st', ev) -> exists q, ev = EPtr (Some q).
+Proof.
+  intros R Hapi Es. unfold step in Es. destruct (a_refs (st_a st) =? 0); [discriminate|].
+  unfold with_scope in Es. destruct (nth_error (st_scs st) k) as [s|]; [|discriminate].
+  destruct (realloc c (st_a st) s p0 old new) as [[q0 a']| | |] eqn:Er; try discriminate.
+  inversion Es; subst; clear Es.
+  unfold realloc in Er. destruct p0 as [p|].
+  - simpl in Hapi. apply andb_true_iff in Hapi. destruct Hapi as [_ Hapi].
+    destruct (find (is_user_at p old) (g_blocks g)) as [b|] eqn:Ef; [|discriminate].
+    destruct (find_is_user _ _ _ _ Ef) as (Hb & _ & Hl & _).
+    pose proof (live_aligned c Hwf _ _ _ R Hb) as Hal. unfold b_off in Hal. rewrite Hl in Hal.
+    apply N.mod_divide in Hal; [|apply (ma_nz c Hwf)].
+    rewrite (land_aligned c Hwf _ Hal) in Er. cbn [N.eqb negb] in Er.
+    destruct (realloc_fast c (st_a st) s p old new) as [[[|] a1]| | |]; try discriminate.
+    + inversion Er; eauto.
+    + destruct (malloc c (st_a st) s new) as [[q1 a2]| | |]; try discriminate. inversion Er; eauto.
+  - destruct (malloc c (st_a st) s new) as [[q1 a2]| | |]; try discriminate. inversion Er; eauto.
+Qed.
 
 Theorem buf_reserve_api g k bf len o :
   scope_okb g k = true -> buf_ok g bf -> buf_reserve k bf len = Some (Some o) ->
@@ -97,7 +127,7 @@ Theorem buf_reserve_api g k bf len o :
 Proof.
   intros Hsc Hok Hr. destruct (buf_reserve_call _ _ _ _ Hr) as (newsiz & -> & Hgrow & _).
   unfold buf_ok in Hok. destruct (bf_ptr bf) as [p|]; simpl.
-  - destruct Hok as (b & Hb & Hu). destruct (find_user_some _ _ _ _ Hb Hu) as [b' Ef].
+  - destruct (owns_find _ _ _ (bf_siz bf) Hok (N.le_refl _) (or_introl eq_refl)) as [b' Ef].
     rewrite Hsc, Ef. assert (E : (bf_siz bf <? newsiz) = true) by (apply N.ltb_lt; assumption).
     rewrite E, !orb_true_r, !andb_true_r. split; reflexivity.
   - split; [assumption|reflexivity].
@@ -113,7 +143,7 @@ Proof.
 Qed.
 
 (* growing it through the innermost scope: the arena returns a block (or exits for a request
-   above 2^63 bytes), and the buffer again owns a live user block of its new size *)
+   above 2^63 bytes), and the buffer again owns a live user block of exactly its new size *)
 Theorem buf_inner_growth st g bf len o :
   reach c st g -> scope_okb g 0 = true -> buf_ok g bf -> buf_reserve 0 bf len = Some (Some o) ->
   (exists st' q newsiz, step c st o = Ok (st', EPtr (Some q)) /\ o = Realloc 0 (bf_ptr bf) (bf_siz bf) newsiz /\
@@ -124,98 +154,120 @@ Proof.
   intros R Hsc Hok Hr. destruct (buf_reserve_api _ _ _ _ _ Hsc Hok Hr) as [Hapi Hmt].
   destruct (buf_reserve_call _ _ _ _ Hr) as (newsiz & -> & Hgrow & _).
   destruct (inner_use_ok c Hwf _ _ _ R Hapi Hmt) as [(st' & ev & Es)|He]; [left|right; assumption].
-  assert (exists q, ev = EPtr (Some q)) as [q ->].
-  { pose proof Es as Es0. unfold step in Es. destruct (a_refs (st_a st) =? 0); [discriminate|].
-    unfold with_scope in Es. destruct (nth_error (st_scs st) 0) as [s|]; [|discriminate].
-    destruct (realloc c (st_a st) s (bf_ptr bf) (bf_siz bf) newsiz) as [[q0 a']| | |] eqn:Er; try discriminate.
-    inversion Es; subst; clear Es.
-    unfold realloc in Er. destruct (bf_ptr bf) as [p|].
-    - unfold buf_ok in Hok. simpl in Hapi. rewrite Hsc in Hapi. simpl in Hapi.
-      destruct (find (is_user_at p (bf_siz bf)) (g_blocks g)) as [b|] eqn:Ef; [|discriminate].
-      destruct (find_is_user _ _ _ _ Ef) as (Hb & _ & Hl & _).
-      pose proof (live_aligned c Hwf _ _ _ R Hb) as Hal. unfold b_off in Hal. rewrite Hl in Hal.
-      apply N.mod_divide in Hal; [|apply (ma_nz c Hwf)].
-      rewrite (land_aligned c Hwf _ Hal) in Er. cbn [N.eqb negb] in Er.
-      destruct (realloc_fast c (st_a st) s p (bf_siz bf) newsiz) as [[[|] a1]| | |]; try discriminate.
-      + inversion Er; eauto.
-      + destruct (malloc c (st_a st) s newsiz) as [[q1 a2]| | |]; try discriminate. inversion Er; eauto.
-    - destruct (malloc c (st_a st) s newsiz) as [[q1 a2]| | |]; try discriminate. inversion Er; eauto. }
+  destruct (realloc_returns_block _ _ _ _ _ _ _ _ R Hapi Es) as [q ->].
   exists st', q, newsiz. split; [assumption|]. split; [reflexivity|].
   split; [eapply reach_step; eassumption|].
-  unfold buf_ok. cbn [bf_ptr bf_siz gstep]. eexists. split; [left; reflexivity|].
-  unfold is_user_at. simpl. unfold loc_eqb. rewrite Nat.eqb_refl, !N.eqb_refl. reflexivity.
+  unfold buf_ok. cbn [bf_ptr bf_siz gstep]. apply owns_head.
 Qed.
 
 End Clients.
 
 (* ---- struct vector --------------------------------------------------------------------------------- *)
-(* v_ptr is the address of struct vector itself (what the callbacks see), vhdr = sizeof(struct vector) *)
-Record vec := mkVec { v_ptr : loc; v_siz : N; v_len : N; v_stride : N }.
-
-(* vector_reserve1(&vc, n) through the scope with index k *)
-Definition vec_reserve (vhdr : N) (k : nat) (v : vec) (n : N) : option (option op) :=
-  if ULONG_MAX - n <? v_len v then None else
-  if v_len v + n <=? v_siz v then Some None else
-  match dbl 64 (if v_siz v =? 0 then 16 else v_siz v) (v_len v + n) with
-  | None => None
-  | Some newsiz =>
-      if ULONG_MAX / v_stride v <? newsiz then None
-      else if ULONG_MAX - vhdr <? newsiz * v_stride v then None
-      else Some (Some (Realloc k (Some (v_ptr v)) (vhdr + v_len v * v_stride v) (newsiz * v_stride v + vhdr)))
-  end.
-
-(* the vector is a live user block of sizeof(struct vector) + vc_siz * stride bytes *)
+(* the vector (header + capacity) is a live user block of exactly sizeof(struct vector) + vc_siz * stride
+   bytes, and it holds no more elements than its capacity *)
 Definition vec_ok (vhdr : N) (g : ghost) (v : vec) : Prop :=
-  0 < v_stride v /\
-  exists b, In b (g_blocks g) /\ is_user_at (v_ptr v) (vhdr + v_siz v * v_stride v) b = true.
+  0 < v_stride v /\ v_len v <= v_siz v /\ owns g (v_ptr v) (vhdr + v_siz v * v_stride v).
 
+(* the call vector_reserve1 issues; the first conjunct consumes the generated expressions *)
 Lemma vec_reserve_call vhdr k v n o :
   vec_reserve vhdr k v n = Some (Some o) ->
   exists newsiz, o = Realloc k (Some (v_ptr v)) (vhdr + v_len v * v_stride v) (newsiz * v_stride v + vhdr) /\
                  v_siz v < v_len v + n /\ v_len v + n <= newsiz.
 Proof.
-  unfold vec_reserve. destruct (ULONG_MAX - n <? v_len v); [discriminate|].
+  unfold vec_reserve, vec_newsiz. destruct (ULONG_MAX - n <? v_len v); [discriminate|].
   destruct (N.leb_spec (v_len v + n) (v_siz v)) as [|Hroom]; [discriminate|].
-  destruct (dbl 64 (if v_siz v =? 0 then 16 else v_siz v) (v_len v + n)) as [newsiz|] eqn:Ed; [|discriminate].
+  destruct (dbl ar_vec_dbl_guard ar_vec_dbl_factor 64 (if v_siz v =? 0 then ar_vec_init_cap else v_siz v)
+                (v_len v + n)) as [newsiz|] eqn:Ed; [|discriminate].
   destruct (ULONG_MAX / v_stride v <? newsiz); [discriminate|].
   destruct (ULONG_MAX - vhdr <? newsiz * v_stride v); [discriminate|].
-  intros H; inversion H; subst; clear H. exists newsiz. apply dbl_ge in Ed. split; [reflexivity|]. split; [assumption|apply Ed].
+  intros H; inversion H; subst; clear H. exists newsiz.
+  apply (dbl_ge _ _ _ vec_factor_ok) in Ed. split; [reflexivity|]. split; [assumption|apply Ed].
 Qed.
 
 Section VecClients.
 Variable c : cfg.
 Hypothesis Hwf : wf_cfg c.
 Variable vhdr : N.
+Hypothesis Hhdr : 0 < vhdr.
 
-(* a full vector (len = capacity: vector_alloc, arena_vector_init) names its block with the true size *)
+(* vector_init_impl: calloc(1, sizeof(struct vector)) with vc_siz = 0, len = 0 *)
+Lemma vec_init_ok g k q stride :
+  0 < stride -> vec_ok vhdr (gstep c g (Calloc k 1 vhdr) (EPtr (Some q))) (mkVec q 0 0 stride).
+Proof.
+  intros Hs. unfold vec_ok. cbn [v_stride v_len v_siz v_ptr gstep alloc_args].
+  split; [assumption|]. split; [lia|].
+  replace (vhdr + 0 * stride) with (1 * vhdr) by lia. apply owns_head.
+Qed.
+
+(* ANY vector in order, full or not: the call is inside the API and must trap exactly through a
+   scope that is not the innermost one *)
 Theorem vec_reserve_api g k v n o :
-  scope_okb g k = true -> vec_ok vhdr g v -> v_len v = v_siz v -> vec_reserve vhdr k v n = Some (Some o) ->
+  scope_okb g k = true -> vec_ok vhdr g v -> vec_reserve vhdr k v n = Some (Some o) ->
   api_okb g o = true /\ must_trap c o = (0 <? k)%nat.
 Proof.
-  intros Hsc [Hst (b & Hb & Hu)] Hfull Hr.
+  intros Hsc (Hst & Hlen & Hown) Hr.
   destruct (vec_reserve_call _ _ _ _ _ Hr) as (newsiz & -> & Hroom & Hns).
-  rewrite Hfull in *. destruct (find_user_some _ _ _ _ Hb Hu) as [b' Ef].
-  assert (E : (vhdr + v_siz v * v_stride v <? newsiz * v_stride v + vhdr) = true) by (apply N.ltb_lt; nia).
+  assert (Hle : vhdr + v_len v * v_stride v <= vhdr + v_siz v * v_stride v) by nia.
+  destruct (owns_find _ _ _ _ Hown Hle) as [b' Ef]; [right; lia|].
+  assert (E : (vhdr + v_len v * v_stride v <? newsiz * v_stride v + vhdr) = true) by (apply N.ltb_lt; nia).
   simpl. rewrite Hsc, Ef, E, !orb_true_r, !andb_true_r. split; reflexivity.
 Qed.
 
 Theorem vec_outer_growth_traps st g k v n o :
-  reach c st g -> scope_okb g k = true -> (0 < k)%nat -> vec_ok vhdr g v -> v_len v = v_siz v ->
+  reach c st g -> scope_okb g k = true -> (0 < k)%nat -> vec_ok vhdr g v ->
   vec_reserve vhdr k v n = Some (Some o) -> step c st o = Trap.
 Proof.
-  intros R Hsc Hk Hok Hfull Hr. destruct (vec_reserve_api _ _ _ _ _ Hsc Hok Hfull Hr) as [Hapi Hmt].
+  intros R Hsc Hk Hok Hr. destruct (vec_reserve_api _ _ _ _ _ Hsc Hok Hr) as [Hapi Hmt].
   apply (outer_use_traps c Hwf _ _ _ R Hapi). rewrite Hmt. apply Nat.ltb_lt. assumption.
+Qed.
+
+(* through the innermost scope: a block comes back (or exit above 2^63 bytes), the vector is
+   again a live block of exactly header + new capacity, and the header and the elements in use
+   are at the new place what they were at the old one *)
+Theorem vec_inner_growth st g v n o :
+  reach c st g -> scope_okb g 0 = true -> vec_ok vhdr g v -> vec_reserve vhdr 0 v n = Some (Some o) ->
+  (exists st' q newsiz, step c st o = Ok (st', EPtr (Some q)) /\
+       reach c st' (gstep c g o (EPtr (Some q))) /\
+       vec_ok vhdr (gstep c g o (EPtr (Some q))) (mkVec q newsiz (v_len v) (v_stride v)) /\
+       v_len v + n <= newsiz /\
+       (forall i, i < vhdr + v_len v * v_stride v ->
+          a_mem (st_a st') (fst q) (snd q + i) = a_mem (st_a st) (fst (v_ptr v)) (snd (v_ptr v) + i))) \/
+  (step c st o = Exit1 /\ may_exit c o = true).
+Proof.
+  intros R Hsc Hok Hr. destruct (vec_reserve_api _ _ _ _ _ Hsc Hok Hr) as [Hapi Hmt].
+  destruct Hok as (Hst & Hlen & Hown).
+  destruct (vec_reserve_call _ _ _ _ _ Hr) as (newsiz & -> & Hroom & Hns).
+  destruct (inner_use_ok c Hwf _ _ _ R Hapi Hmt) as [(st' & ev & Es)|He]; [left|right; assumption].
+  destruct (realloc_returns_block c Hwf _ _ _ _ _ _ _ _ R Hapi Es) as [q ->].
+  exists st', q, newsiz. split; [assumption|]. split; [eapply reach_step; eassumption|].
+  split; [|split; [assumption|]].
+  - unfold vec_ok. cbn [v_stride v_len v_siz v_ptr gstep]. split; [assumption|]. split; [lia|].
+    replace (vhdr + newsiz * v_stride v) with (newsiz * v_stride v + vhdr) by lia. apply owns_head.
+  - intros i Hi. apply (realloc_prefix c Hwf _ _ _ _ _ _ _ _ R Hapi Es). nia.
 Qed.
 
 End VecClients.
 
-(* a vector with room left, but not enough (vector_reserve(vv, n) with len < capacity < len + n),
-   names an old size smaller than the size its block was allocated with: the call is outside
-   [api_okb] although the vector is in perfect order *)
-Theorem vec_reserve_underreports :
-  exists g v o, vec_ok 48 g v /\ scope_okb g 0 = true /\ vec_reserve 48 0 v 20 = Some (Some o) /\ api_okb g o = false.
-Proof.
-  exists (mkG [mkB (O, 32) (48 + 16 * 8) 1 false] [[]] false), (mkVec (O, 32) 16 3 8).
-  eexists. split; [|split; [reflexivity|split; [vm_compute; reflexivity|reflexivity]]].
-  split; [reflexivity|]. eexists. split; [left; reflexivity|reflexivity].
-Qed.
+(* ---- instantiated with sizeof(struct vector) as generated from vector.c ------------------------------ *)
+Lemma vec_hdr_pos : 0 < ar_vec_hdr.
+Proof. vm_compute. reflexivity. Qed.
+
+Definition vec_init_ok_src c := vec_init_ok c ar_vec_hdr vec_hdr_pos.
+Definition vec_reserve_api_src c := vec_reserve_api c ar_vec_hdr vec_hdr_pos.
+Definition vec_outer_growth_traps_src c Hwf := vec_outer_growth_traps c Hwf ar_vec_hdr vec_hdr_pos.
+Definition vec_inner_growth_src c Hwf := vec_inner_growth c Hwf ar_vec_hdr vec_hdr_pos.
+
+(* ---- what the driver prints for a container history is the call of buf_reserve / vec_reserve ----------- *)
+Lemma buf_calls_reserve k bf n :
+  match buf_newsiz bf n with
+  | None => buf_reserve k bf n = None
+  | Some r => reserve_sizes (buf_reserve k bf n) = Some (hd_error (buf_calls bf r))
+  end.
+Proof. unfold buf_reserve. destruct (buf_newsiz bf n) as [[ns|]|]; reflexivity. Qed.
+
+Lemma vec_calls_reserve vhdr k v n :
+  match vec_newsiz vhdr v n with
+  | None => vec_reserve vhdr k v n = None
+  | Some r => reserve_sizes (vec_reserve vhdr k v n) = Some (hd_error (vec_calls vhdr v r))
+  end.
+Proof. unfold vec_reserve. destruct (vec_newsiz vhdr v n) as [[ns|]|]; reflexivity. Qed.
